@@ -7,6 +7,51 @@ EQ_CASTS_OK = {("i32", "i64"): "protobuf enum number widened exactly",
                ("i32", "u64"): "protobuf enum number vs uint (protobuf-only operand; outside the value types of the property)"}
 
 
+def sort_guard(chk, F, RULE):
+    import symex, semtables
+    # ---- R04.8 sort's guard: the order handed to sort_by is total on the list
+    chk.rule(RULE, "sort reaches sort_by only for an empty list or when every element e satisfies ord(e, first) = Ok(Some) and ord(e, e) = Ok(Some): elements are mutually comparable "
+                      "and none is NaN, so the comparator is a total order (std's sort_by may panic on anything else) and the result is an ordered permutation")
+    srt8 = F.find(r"default_funcs::sort::methods::sort_\w+$", "rscel")
+    srt8 = [b_ for b_ in srt8 if "{closure" not in b_.path]
+
+    class SortPolicy(semtables.LogicPolicy):
+        max_paths = 800
+
+        def stub(self, interp, st, path, c, args, t, caller):
+            if path.endswith("CelValue::ord"):
+                return [(st, ("call", "ord", tuple(args), "R"))]
+            if re.search(r"slice::<impl \[T\]>::(sort|sort_by|sort_unstable|sort_unstable_by|sort_by_key)", path):
+                st.event("sorted", path)
+                return [(st, ("unit",))]
+            return None
+    n_sorted = 0
+    for sb in srt8:
+        it = symex.Interp(F, SortPolicy())
+        for st, r in it.run(sb, [symex.U("this", sb.local_ty(1))]):
+            if not any(e[0] == "sorted" for e in st.trace):
+                continue
+            n_sorted += 1
+            conds = [(c[2], str(c[3])) for c in st.cond if c[0] == "variant"]
+            empty = any(v == "None" and "first(this)" in w for v, w in conds)
+            FIRST = r"Option::cloned\(slice::first\(this\)\)\.Some\.0|slice::first\(this\)\.Some\.0"
+            ELEM = r"\*this"
+            need = {"with first Ok": r"^ord\((?:%s), (?:%s)\)$|^ord\((?:%s), (?:%s)\)$" % (ELEM, FIRST, FIRST, ELEM), "with first Some": r"^ord\((?:%s|%s), (?:%s|%s)\)\.Ok\.0$" % (ELEM, FIRST, FIRST, ELEM),
+                    "with self Ok": r"^ord\(%s, %s\)$" % (ELEM, ELEM), "with self Some": r"^ord\(%s, %s\)\.Ok\.0$" % (ELEM, ELEM)}
+            have = {}
+            for nm, rx in need.items():
+                wantv = "Ok" if nm.endswith("Ok") else "Some"
+                have[nm] = any(v == wantv and re.match(rx, w) for v, w in conds)
+            key = "sort|%s" % ("empty list" if empty else "guarded")
+            if empty or all(have.values()):
+                chk.ok(RULE, key, sorted(k_ for k_, v_ in have.items() if v_))
+            else:
+                chk.bad(RULE, key, "sort_by is reached without establishing %s for every element: a list with a NaN (ord = Ok(None)) or with incomparable elements reaches the comparator, "
+                                      "which is then no total order - std's sort_by panics on such input (lists longer than 20) or returns an unordered list"
+                        % sorted(k_ for k_, v_ in have.items() if not v_), sb.file)
+    chk.floor(RULE, "paths of sort that reach sort_by", n_sorted, 2)
+
+
 def run(chk, tier):
     F = lib.get_facts()
     chk.rule("R04.1", "`!=` is the negation of the one `==`: neq's closure calls CelValueDyn::eq once and applies `!`")
@@ -230,6 +275,7 @@ def run(chk, tier):
             chk.ok("R04.7", m, sorted(accept))
         else:
             chk.bad("R04.7", m, "%s is true for the orderings %s of ord(a, b); the operator means %s" % (m, sorted(accept), sorted(want)), "rscel/src/types/cel_value.rs")
+    sort_guard(chk, F, "R04.8")
     return chk.finish(
         "Structural wiring of the comparison layer: != = !==, a single ord behind < <= > >=, no value-changing casts in ord/eq/type_prop, "
         "sort/min/max wired to the same order with strict replacement. Decision tables of ord / eq / lt / le / gt / ge by symbolic execution: ordering per type pair, symmetric handling of equality, accepted "
